@@ -107,6 +107,7 @@ class Comment(Base):
     id = sa.Column(sa.Integer, primary_key=True)
     text = sa.Column(sa.String, nullable=False)
     score = sa.Column(sa.Integer, nullable=False)
+    flag = sa.Column(sa.Boolean, nullable=False, default=False)
     post_id = sa.Column(sa.Integer, sa.ForeignKey("sa_post.id"))
     post = relationship("Post", back_populates="comments")
 
